@@ -285,23 +285,25 @@ def parseData (W : World N V T) (s : Sig N V T) (o : Opts) (excluded : List N) (
 
 /-! ### `parse_params` (func.py:604-665) -/
 
-/-- step 2 (func.py:646-668, after fix C08-posonly-default): positional-only fields that were not given.
-`pend` are the declared defaults of omitted private parameters met since the last appended value (they are
-appended only when a later positional-only default needs its slot); `contig` = every slot so far could be filled. -/
-def fillPo (W : World N V T) : List (Param N V T) → List V → Bool → Except Err (List V)
-  | [], _, _ => .ok []
-  | p :: ps, pend, contig =>
+/-- step 2 (func.py:646-668, after fix C08-posonly-default): positional-only fields that were not given, as the
+values appended to `parsed_args` (a prefix of the slots of `ps`).  `contig` = every slot so far could be filled.
+A positional-only field appends its default when the slots before it are filled; an omitted private parameter's own
+declared default is appended exactly when a later positional-only default needs the slot after it (the `while`
+loop of the fix runs only then), i.e. when the rest appends something. -/
+def fillPo (W : World N V T) : List (Param N V T) → Bool → Except Err (List V)
+  | [], _ => .ok []
+  | p :: ps, contig =>
     if p.posOnly && !W.priv p.name then
       match p.dflt with
       | none => .error .perr                                       -- AbsenceError (func.py:650-652)
       | some d =>
-        if contig then (fillPo W ps [] true).map (fun r => pend ++ d :: r)
-        else fillPo W ps [] false
+        if contig then (fillPo W ps true).map (fun r => d :: r)
+        else fillPo W ps false
     else if W.priv p.name && contig then
       match p.dflt with
-      | some d => fillPo W ps (pend ++ [d]) true
-      | none => fillPo W ps [] false
-    else fillPo W ps [] false
+      | some d => (fillPo W ps true).map (fun r => if r.isEmpty then [] else d :: r)
+      | none => fillPo W ps false
+    else fillPo W ps false
 
 /-- names appended to `parsed_keys` by step 2 -/
 def poFieldNames (W : World N V T) (ps : List (Param N V T)) : List N :=
@@ -311,7 +313,7 @@ def poFieldNames (W : World N V T) (ps : List (Param N V T)) : List N :=
 `parsed_args` and `parsed_keys` -/
 def posStage (W : World N V T) (s : Sig N V T) : List (Param N V T) → List V → Except Err (List V × List N)
   | ps, [] =>
-    match fillPo W ps [] true with
+    match fillPo W ps true with
     | .error e => .error e
     | .ok fill => .ok (fill, poFieldNames W ps)
   | [], a :: as =>
